@@ -10,7 +10,7 @@ composed model converts, the `<instance id=…>` children of the document's `<mo
 choices sheet in first-occurrence order, each with its choices in sheet order.
 -/
 namespace Pyxv.ConvertC09
-open Pyxv Pyxv.Form Pyxv.Rows Pyxv.Xml Pyxv.Asm Pyxv.Convert Pyxv.ConvertP
+open Pyxv Pyxv.Form Pyxv.Rows Pyxv.Xml Pyxv.Asm Pyxv.Convert Pyxv.ConvertP Pyxv.C01
 
 /-- the canonical column names of the choices header of a workbook in `Convert`'s fragment -/
 def choiceColsOf (wb : Workbook) : List Str := wb.choiceCols.filterMap fun h => lookup h choiceKeys
@@ -212,5 +212,67 @@ theorem convert_itemset (r : Cells) (t sel ln : Str) (other : Bool)
 example : itemsetNodes [(l!"type", l!"select_one yn"), (l!"name", l!"s")] =
     [pyNode (l!"itemset") [(l!"nodeset", l!"instance('yn')/root/item")]
       [pyNode (l!"value") [(l!"ref", l!"name")] [], pyNode (l!"label") [(l!"ref", l!"label")] []]] := by decide +kernel
+
+
+/-! ## … in the text: the ids an XML reader sees in the whole document -/
+
+theorem ids_eprojKids : ∀ ks : List Node, (eprojKids ks).filterMap Choices.instanceId = ks.filterMap Choices.instanceId
+  | [] => by simp [eprojKids_nil]
+  | .text b s :: rest => by
+    rw [eprojKids_text, ids_eprojKids rest, List.filterMap_cons]; rfl
+  | .elem t a ks :: rest => by
+    rw [eprojKids_elem, List.filterMap_cons, List.filterMap_cons, ids_eprojKids rest]
+    simp [Choices.instanceId]
+
+theorem ids_normAttrsKids : ∀ ks : List Node,
+    (normAttrsKids ks).filterMap Choices.instanceId = (ks.filterMap Choices.instanceId).map normAttrVal
+  | [] => by simp [normAttrsKids]
+  | .text b s :: rest => by
+    simp only [normAttrsKids, normAttrs, List.filterMap_cons, Choices.instanceId, ids_normAttrsKids rest]
+  | .elem t a ks :: rest => by
+    simp only [normAttrsKids, normAttrs, List.filterMap_cons, Choices.instanceId, ids_normAttrsKids rest]
+    by_cases ht : t = c!"instance"
+    · simp only [ht, if_true, lookup_normAttrList]
+      cases lookup c!"id" a <;> simp
+    · simp [ht]
+
+theorem modelKidsOf_parsed (f : Fields) (rk rest bk : List Node) :
+    modelKidsOf (normAttrs (eproj (assemble f none rk rest bk))) =
+      normAttrsKids (eprojKids (Asm.modelKids f none rk rest)) := by
+  simp [assemble, pyNode, eproj, eprojKids, isText, normAttrs, normAttrsKids, modelKidsOf]
+
+open Pyxv.Choices in
+/-- **Instance ids of the whole document, as an XML reader sees them.**  For every workbook the composed model
+    converts (compact mode), the text parses and the `<instance id=…>` children of the parsed document's `<model>`
+    carry, in document order, the list names of the choices sheet in first-occurrence order with the reader's
+    attribute-value normalisation applied (TAB / LF / CR → space).  They are pairwise distinct when no list name
+    contains such a character — the complement of the open finding F42, which is exactly the case where two
+    distinct names are read back as one id.  `hn` is the C01 guard of `convert_c15`. -/
+theorem convert_document_ids (wb : Workbook) (text : Str) (h : convert wb false = .ok text)
+    (hn : ∀ doc, convertDoc wb = .ok doc → noBrTree doc = true) :
+    ∃ ch parsed, canonChoices wb.choices = some ch ∧ parseDoc text = some parsed ∧
+      secondaryIds (eproj parsed) = (Spec.listNames listKey ch).map normAttrVal ∧
+      ((∀ l ∈ Spec.listNames listKey ch, normAttrVal l = l) → (secondaryIds (eproj parsed)).Nodup) := by
+  obtain ⟨doc, hd, rfl⟩ := convert_ok wb false text h
+  obtain ⟨f, lists, rows, drows, o, ditems, T⟩ := convertDoc_trace wb doc hd
+  obtain ⟨hwf, helem⟩ := trace_wf T (hn doc hd)
+  obtain ⟨ch, hch, hids, hnd, -⟩ := convert_c09 wb doc hd
+  have hparse := render_parses_compact_lax doc hwf helem
+  have hE : secondaryIds (eproj (expectedLax doc)) = (Spec.listNames listKey ch).map normAttrVal := by
+    rw [← hids, eproj_expectedLax, secondaryIds, secondaryIds]
+    obtain ⟨ch', f', rk, root, tops, pre, ds, body, -, -, hdoc⟩ := convertDoc_choices wb doc hd
+    rw [hdoc, modelKidsOf_parsed, ids_normAttrsKids, ids_eprojKids, modelKidsOf_assemble]
+  refine ⟨ch, _, hch, hparse, hE, ?_⟩
+  intro hws
+  rw [hE, List.map_congr_left hws, List.map_id', ← hids]
+  exact hnd
+
+#print axioms convert_document_ids
+
+example : ∃ ch parsed, canonChoices exWb.choices = some ch ∧ parseDoc exText = some parsed ∧
+    secondaryIds (eproj parsed) = (Choices.Spec.listNames Choices.listKey ch).map normAttrVal := by
+  obtain ⟨ch, parsed, h1, h2, h3, -⟩ :=
+    convert_document_ids exWb exText ex_convert (fun d hd => (namesClean_of_B ex_clean d hd).1)
+  exact ⟨ch, parsed, h1, h2, h3⟩
 
 end Pyxv.ConvertC09
